@@ -247,4 +247,12 @@ def delivered (c : Cfg) (out : List (Nat × Nat)) : List (Nat × Res) :=
 def spec (c : Cfg) (k : Nat) : List (Nat × Res) :=
   (List.range k).map (fun i => (i, result c i))
 
+/-- the outcome of a complete iteration (not closed early) from the configuration alone: how many
+    outputs are delivered (`Fifo.expectedLen`: everything up to the first element whose outcome is
+    an exception when exceptions are not returned) and how the iteration ends (`none`: normally;
+    `.item m`: with the exception of element `m`; `.src`: with the source's exception) -/
+def outcome (c : Cfg) : Nat × Option Raised :=
+  let m := Fifo.expectedLen c c.n 0
+  (m, if m < c.n then some (.item m) else if c.srcEnd = .exc then some .src else none)
+
 end AFifo
